@@ -66,6 +66,9 @@ pub fn take_unmapped() -> Vec<Access> {
 fn find(addr: u64, width: u8) -> Option<(Rc<RefCell<dyn MmioDevice>>, u64)> {
     with(|b| {
         b.count += 1;
+        if std::env::var_os("VCHECK_BUS_DEBUG").is_some() {
+            eprintln!("bus: access {:#x}+{} regions {:x?}", addr, width, b.regions.iter().map(|r| (r.base, r.len)).collect::<Vec<_>>());
+        }
         b.regions.iter().find(|r| addr >= r.base && addr + width as u64 <= r.base + r.len).map(|r| (r.dev.clone(), addr - r.base))
     })
 }
